@@ -78,3 +78,16 @@ Theorem C08_chain_ranges_nested :
 Proof. exact C08_chain_ranges_nested. Qed.
 Print Assumptions C08_chain_ranges_nested.
 
+(* ---- binary64 (Flocq): a proposal is finite, hence not NaN, when the magnitudes are moderate - the premise
+   all_samples_good of C08_ranges_invariant_binary64, one step at a time ---- *)
+From Flocq Require Import Core BinarySingleNaN PrimFloat.
+From PV Require Import proofs.FloatFacts proofs.SampleFloat.
+
+Theorem C08_F_sample_finite :
+  forall (h : handle NumF) (v step g : F), ffin v -> ffin step -> ffin g -> ffin (h_min NumF h)
+    -> ffin (h_max NumF h) -> fmag v 300 -> fmag step 300 -> fmag g 0 -> fmag (h_min NumF h) 300
+    -> fmag (h_max NumF h) 300 -> ffin (sample NumF h v step g) /\ fnan (sample NumF h v step g)
+    = false.
+Proof. exact F_sample_finite. Qed.
+Print Assumptions C08_F_sample_finite.
+
